@@ -202,57 +202,107 @@ func driveMain(fs *flag.FlagSet, args []string) {
 		}
 		return unknown[i].K < unknown[j].K
 	})
-	seenClass := map[string]bool{}
+	// Group the candidates by class|key.  A candidate is only reported when its
+	// ORIGINAL tape reproduces in a fresh process (a violation that needs state
+	// left behind by earlier runs of the same worker process is not replayable:
+	// the next candidate of the group is tried instead).
+	groups := map[string][]ViolRec{}
+	var groupOrder []string
 	for _, u := range unknown {
 		v := u.Violations[0]
 		ck := v.Class + "|" + v.Key
-		if seenClass[ck] || len(seenClass) >= 5 {
-			continue
+		if _, ok := groups[ck]; !ok {
+			groupOrder = append(groupOrder, ck)
 		}
-		seenClass[ck] = true
-		os.MkdirAll(filepath.Join(*replays, p.ID), 0o755)
-		raw := filepath.Join(*scratch, fmt.Sprintf("%s-raw-%d.json", p.ID, len(seenClass)))
-		name := fmt.Sprintf("%s-s%d-r%d", p.ID, *seed, u.Idx)
-		if u.K >= 0 {
-			name += fmt.Sprintf("-k%d", u.K)
-		}
-		name += "-" + sanitize(strings.TrimPrefix(v.Class, p.ID+"/")) + "-" + sanitize(v.Key)
-		final := filepath.Join(*replays, p.ID, name+".json")
-		rf := ReplayFile{Property: p.ID, Tier: *tier, BaseSeed: *seed, RunIndex: u.Idx, SweepK: u.K, Class: v.Class, Key: v.Key, Msg: v.Msg, Tape: u.Tape}
-		if err := writeJSON(raw, &rf); err != nil {
-			die2("%v", err)
-		}
-		cmd := exec.Command(exe, "shrink", "-in", raw, "-out", final, "-secs", "45")
+		groups[ck] = append(groups[ck], u)
+	}
+	freshReplay := func(file string) (bool, string) {
+		cmd := exec.Command(exe, "replay", "-quiet", "-file", file)
 		cmd.Env = append(os.Environ(), "GOMAXPROCS=1")
-		if b, err := cmd.CombinedOutput(); err != nil {
-			die2("shrinking %s failed (run idx %d): %v\n%s", v.Class, u.Idx, err, b)
+		b, err := cmd.CombinedOutput()
+		ee, isExit := err.(*exec.ExitError)
+		if err == nil || !isExit || ee.ExitCode() != 1 {
+			return false, ""
 		}
-		os.Remove(raw)
-		// re-execute twice in fresh processes: same class and same trace hash
-		var hashes []string
-		for i := 0; i < 2; i++ {
-			cmd := exec.Command(exe, "replay", "-quiet", "-file", final)
-			cmd.Env = append(os.Environ(), "GOMAXPROCS=1")
-			b, err := cmd.CombinedOutput()
-			ee, isExit := err.(*exec.ExitError)
-			if err == nil || !isExit || ee.ExitCode() != 1 {
-				die2("minimised replay %s did not reproduce in a fresh process (exit %v) - harness nondeterminism\n%s", final, err, b)
+		for _, l := range strings.Split(string(b), "\n") {
+			if strings.HasPrefix(l, "REPLAY ") {
+				return true, l
 			}
-			for _, l := range strings.Split(string(b), "\n") {
-				if strings.HasPrefix(l, "REPLAY ") {
-					hashes = append(hashes, l)
+		}
+		return true, ""
+	}
+	notSelfContained := 0
+	nreported := 0
+	for _, ck := range groupOrder {
+		if nreported >= 5 {
+			break
+		}
+		for ci, u := range groups[ck] {
+			v := u.Violations[0]
+			os.MkdirAll(filepath.Join(*replays, p.ID), 0o755)
+			raw := filepath.Join(*scratch, fmt.Sprintf("%s-raw-%d-%d.json", p.ID, nreported, ci))
+			name := fmt.Sprintf("%s-s%d-r%d", p.ID, *seed, u.Idx)
+			if u.K >= 0 {
+				name += fmt.Sprintf("-k%d", u.K)
+			}
+			name += "-" + sanitize(strings.TrimPrefix(v.Class, p.ID+"/")) + "-" + sanitize(v.Key)
+			final := filepath.Join(*replays, p.ID, name+".json")
+			rf := ReplayFile{Property: p.ID, Tier: *tier, BaseSeed: *seed, RunIndex: u.Idx, SweepK: u.K, Class: v.Class, Key: v.Key, Msg: v.Msg, Tape: u.Tape, OrigTapeLen: len(u.Tape)}
+			if err := writeJSON(raw, &rf); err != nil {
+				die2("%v", err)
+			}
+			if ok, _ := freshReplay(raw); !ok {
+				notSelfContained++
+				os.Remove(raw)
+				continue
+			}
+			cmd := exec.Command(exe, "shrink", "-in", raw, "-out", final, "-secs", "45")
+			cmd.Env = append(os.Environ(), "GOMAXPROCS=1")
+			shrunk := true
+			if b, err := cmd.CombinedOutput(); err != nil {
+				fmt.Fprintf(os.Stderr, "note: shrinking %s failed (%v): reporting the original tape\n%s", v.Class, err, b)
+				shrunk = false
+			}
+			if shrunk {
+				ok1, h1 := freshReplay(final)
+				ok2, h2 := freshReplay(final)
+				if !ok1 || !ok2 || h1 != h2 {
+					// the minimised tape only failed inside the shrinker's process
+					// (the code under test keeps state between calls): fall back
+					shrunk = false
 				}
 			}
+			if !shrunk {
+				cmd := exec.Command(exe, "shrink", "-in", raw, "-out", final, "-secs", "0", "-noshrink")
+				cmd.Env = append(os.Environ(), "GOMAXPROCS=1")
+				if b, err := cmd.CombinedOutput(); err != nil {
+					die2("writing the replay file failed: %v\n%s", err, b)
+				}
+				ok1, h1 := freshReplay(final)
+				ok2, h2 := freshReplay(final)
+				if !ok1 || !ok2 || h1 != h2 {
+					notSelfContained++
+					os.Remove(raw)
+					os.Remove(final)
+					continue
+				}
+			}
+			os.Remove(raw)
+			var fin ReplayFile
+			readJSON(final, &fin)
+			fmt.Printf("violated: %s key=%s (run %d, tape %d -> %d choices)\n  %s\n", fin.Class, fin.Key, u.Idx, fin.OrigTapeLen, len(fin.Tape), strings.ReplaceAll(fin.Msg, "\n", "\n  "))
+			fmt.Printf("VIOLATION property=%s replay=%s\n", p.ID, final)
+			reported = append(reported, final)
+			nreported++
+			exit = 1
+			break
 		}
-		if len(hashes) != 2 || hashes[0] != hashes[1] {
-			die2("replay %s: trace differs between two fresh processes: %v", final, hashes)
-		}
-		var fin ReplayFile
-		readJSON(final, &fin)
-		fmt.Printf("violated: %s key=%s (run %d, tape %d -> %d choices)\n  %s\n", fin.Class, fin.Key, u.Idx, fin.OrigTapeLen, len(fin.Tape), strings.ReplaceAll(fin.Msg, "\n", "\n  "))
-		fmt.Printf("VIOLATION property=%s replay=%s\n", p.ID, final)
-		reported = append(reported, final)
-		exit = 1
+	}
+	if len(unknown) > 0 && exit == 0 {
+		die2("%d violating runs were seen in the worker processes but none reproduces from its tape in a fresh process: the outcome depends on what ran earlier in the same process (state kept between calls by the code under test, or harness nondeterminism). First: %s key=%s: %s", len(unknown), unknown[0].Violations[0].Class, unknown[0].Violations[0].Key, unknown[0].Violations[0].Msg)
+	}
+	if notSelfContained > 0 {
+		fmt.Fprintf(os.Stderr, "note: %d violating runs did not reproduce from their tape in a fresh process and were not reported\n", notSelfContained)
 	}
 
 	if *extraViol != "" {
